@@ -15,6 +15,7 @@ use std::io::{BufRead, BufReader, BufWriter, Write};
 use std::panic::{catch_unwind, AssertUnwindSafe};
 
 mod aead;
+mod ct;
 mod curve;
 mod dig;
 mod hash;
@@ -42,6 +43,36 @@ pub fn get_usize_or(e: &Ev, k: &str, d: usize) -> usize {
 }
 pub fn get_str<'a>(e: &'a Ev, k: &str) -> &'a str {
     e.get(k).and_then(|v| v.as_str()).unwrap_or_else(|| panic!("harness: missing string field {}", k))
+}
+/// A byte string placed at a chosen alignment: when the event carries an "off" field the bytes start `off`
+/// bytes after a 64-byte boundary (C16: "slices at every byte offset"), otherwise wherever the allocator put them.
+pub struct Placed {
+    buf: Vec<u8>,
+    start: usize,
+    len: usize,
+}
+impl Placed {
+    pub fn new(data: &[u8], off: Option<usize>) -> Placed {
+        match off {
+            None => Placed { buf: data.to_vec(), start: 0, len: data.len() },
+            Some(off) => {
+                let mut buf = vec![0xc3u8; data.len() + 192];
+                let start = buf.as_ptr().align_offset(64) + off;
+                buf[start..start + data.len()].copy_from_slice(data);
+                Placed { buf, start, len: data.len() }
+            }
+        }
+    }
+    pub fn get(&self) -> &[u8] {
+        &self.buf[self.start..self.start + self.len]
+    }
+    pub fn get_mut(&mut self) -> &mut [u8] {
+        &mut self.buf[self.start..self.start + self.len]
+    }
+}
+/// the event's byte field `k`, placed according to the event's offset field `offk` (if present)
+pub fn get_placed(e: &Ev, k: &str, offk: &str) -> Placed {
+    Placed::new(&get_bytes(e, k), e.get(offk).and_then(|v| v.as_u64()).map(|x| x as usize))
 }
 /// u64 given as a list of 16-bit limbs, little-endian (TLC integers are 32-bit)
 pub fn get_limbs_u64(e: &Ev, k: &str) -> u64 {
@@ -114,6 +145,7 @@ fn run_history(h: &mut Ev) {
         "aead1" => aead::run(h, &mut evs, true),
         "fn" => kdf::run(h, &mut evs),
         "feprog" => curve::run_feprog(h, &mut evs),
+        "ct" => ct::run(h, &mut evs),
         _ => {
             for e in evs.iter_mut() {
                 e.as_object_mut().unwrap().insert("out".into(), Out::Bad(format!("harness: unknown class {}", cls)).to_json());
